@@ -4,7 +4,7 @@ import time
 
 from .sched import S
 from .harness import EXCEPTION_KINDS, ODD_EXCEPTION_KINDS, BASE_KINDS, FALSY_VALUES, TRUTHY_VALUES
-from .common import base_knobs, bystanders, liveness_bound, FL
+from .common import gen_stalls, base_knobs, bystanders, liveness_bound, FL
 
 TIMES = [0.0, 0.0, 0.001, 0.05, 0.25, 0.3, 0.5, 1.0]
 
@@ -12,6 +12,7 @@ TIMES = [0.0, 0.0, 0.001, 0.05, 0.25, 0.3, 0.5, 1.0]
 def gen(seed, tier):
     rng = random.Random(seed)
     knobs = base_knobs(rng, tier)
+    knobs["stalls"] = gen_stalls(rng)
     relaxed = rng.random() < (0.15 if tier == "quick" else 0.25)
     payloads = bystanders(rng, rng.randint(0, 6), allow_spin=rng.random() < 0.3)
     drivers = []
